@@ -85,6 +85,13 @@ def run(res):
     # pool half: which exits consult the limiter, against the proved pool model
     pc.pool_check(res, 'C11', 100 if res.tier == 'quick' else 4000, focus={'exit': 12, 'tick': 14, 'advance': 10, 'ack': 6, 'apply': 6},
                   cfg=lambda rng: dict(pc.random_cfg(rng), max_restarts=rng.choice([1, 2, 3])))
+    # the supervisor thread of a real pool, past its start-up phase (which runs on a separate, laxer
+    # limiter): acceptances restore the budget; without them the limit is enforced
+    pc.real_scenarios(res, 'C11', [dict(kind='restart_budget', n=2, max_restarts=3, rounds=5, watchdog=90),
+                                   dict(kind='restart_budget', n=2, max_restarts=2, rounds=4, accept_between=False, watchdog=90)]
+                      if res.tier == 'quick' else
+                      [dict(kind='restart_budget', n=n, max_restarts=m, rounds=m + 3, accept_between=a, watchdog=120)
+                       for n in (1, 2) for m in (1, 3) for a in (True, False)])
     res.assumptions += [
         'times are exact integers in the harness (float rounding of monotonic() not modelled)',
         'monotonic() never returns 0 (a window opened at exactly 0.0 would be treated as unset by `if self.T`)',
